@@ -108,11 +108,20 @@ def block_runs(ctx, exe, kind, count):
     """Generated blocks: Scheduler (parallel, several workers) vs force_sequential vs stock revm in order."""
     work = os.path.join(ctx.work, "block")
     os.makedirs(work, exist_ok=True)
-    rc, out = core.sh([exe, kind, str(ctx.seed), str(count), work], timeout=2400)
+    cases_file = os.path.join(work, "block-%s.cases" % kind)
+    if os.path.exists(cases_file):
+        os.remove(cases_file)
+    limit = 420 if ctx.quick else 1700
+    rc, out = core.sh([exe, kind, str(ctx.seed), str(count), work], timeout=limit)
+    lines = open(cases_file).read().splitlines() if os.path.exists(cases_file) else []
+    if rc == 124:
+        # the scheduler under test did not terminate: a verdict about grevm, not a machinery failure
+        return dict(kind=kind, cases=len(lines), hang=True, sample_cases=lines[:3],
+                    mismatch_lines=[l for l in lines if "=> OK" not in l] +
+                    ["hang: flatblock %s %d %d did not finish within %d s (scheduler livelock?)" % (kind, ctx.seed, count, limit)])
     if rc != 0:
         raise RuntimeError("flatblock failed: " + out[-2000:])
     res = json.loads(out.strip().splitlines()[-1])
-    lines = open(os.path.join(work, "block-%s.cases" % kind)).read().splitlines()
     res["mismatch_lines"] = [l for l in lines if "=> OK" not in l]
     res["sample_cases"] = lines[:3]
     return res
@@ -131,6 +140,10 @@ def run_property(ctx, pid, block_kind, what):
     corr_ok = not d["diffs"]
     po = prop_oracle(ctx, bins["flat"], 3000 if quick else 100000)
     bl = block_runs(ctx, bins["flatblock"], block_kind, 200 if quick else 4000)
+    kd = bl.get("contracts_empty_code_only_in_oracle", 0)
+    if kd:
+        core.log("note: %d block case(s) where only stock revm's bundle.contracts holds the KECCAK_EMPTY -> empty-code entry "
+                 "(parallel path commits `code: None` for accounts read back from multi-version memory); not part of the %s statement, reported in the evidence" % (kd, pid))
     concrete = []
     for f in po["fails"][:3]:
         concrete.append(dict(kind="in-order block on the real IncarnationDb vs stock revm State", detail=f,
